@@ -289,3 +289,119 @@ for kind, fn in (('rr', 'fill_generic_rr_list'), ('q', 'fill_generic_q_list')):
                       props=['C01', 'C03'], timeout=900, post='  if (g_exc != 0) { CANARY("out-of-range index reachable"); }',
                       note='list of any length holding any indices (e.g. read from a file): every table is reached only through the bounds-checked accessors; '
                            'one output record per list entry, in order; name, class/type, TTL and RDATA of the watched entry are the table entries the indices denote'))
+
+# ---------------------------------------------------------------- read_generic_qr / read_generic_mm: the record handed to the user equals the stored one (C01)
+RESOLVE = {   # index member -> (presented member, table, sub-member) : RFC 8618 naming (x-index refers to table x)
+    'client_address_index': ('client_ip', 'm_ip_address', 'data'), 'server_address_index': ('server_ip', 'm_ip_address', 'data'),
+    'query_name_index': ('query_name', 'm_name_rdata', 'data'), 'query_opt_rdata_index': ('query_opt_rdata', 'm_name_rdata', 'data'),
+    'bailiwick_index': ('bailiwick', 'm_name_rdata', 'data'), 'query_classtype_index': ('query_classtype', 'm_classtype', None)}
+EXT_LISTS = {'question_index': 'questions', 'answer_index': 'answers', 'authority_index': 'authority', 'additional_index': 'additional'}
+
+
+def opt_scalar_eq(L, ta, a, b):
+    """presented optional a equals stored optional b (value converted to the presented type)"""
+    inner = L.types.classify(ta)[1].args[0]
+    ic = L.types.classify(inner)[0]
+    if ic == 'str':
+        return '(((%s.has != 0) == (%s.has != 0)) && (!%s.has || (%s.val.id == %s.val.id && %s.val.len == %s.val.len)))' % (a, b, b, a, b, a, b)
+    if ic == 'record' and L.types.strip_ns(L.types.classify(inner)[1].name) == 'Timestamp':
+        return '(((%s.has != 0) == (%s.has != 0)) && (!%s.has || (%s.val.m_secs == %s.val.m_secs && %s.val.m_ticks == %s.val.m_ticks)))' % (a, b, b, a, b, a, b)
+    if ic in ('builtin', 'enum'):
+        return '(((%s.has != 0) == (%s.has != 0)) && (!%s.has || %s.val == (%s)%s.val))' % (a, b, b, a, L.types.ctype(inner), b)
+    raise LowerError('presented member of class ' + ic)
+
+
+def present_group(ast, L, gen, grec, stored, srec, cond, clauses, skip=()):
+    """clauses for every member of the stored record srec (C lvalue `stored`) under condition cond; absent => presented members absent"""
+    gf, sf = R.fields_of(ast, grec), R.fields_of(ast, srec)
+    for name, ty in sf.items():
+        if name in skip:
+            continue
+        if name in RESOLVE:
+            pres, tab, sub = RESOLVE[name]
+            if pres not in gf:
+                raise LowerError('%s has no member %s for %s' % (grec, pres, name))
+            t = TB + tab
+            clauses.append('(%s) ==> ((%s.%s.has != 0) == (%s.%s.has != 0))' % (cond, gen, pres, stored, name))
+            if sub:
+                clauses.append('((%s) && %s.%s.has && (unsigned long)%s.%s.val == %s.wi) ==> (%s.%s.val.id == %s.wv.%s.id && %s.%s.val.len == %s.wv.%s.len)' %
+                               (cond, stored, name, stored, name, t, gen, pres, t, sub, gen, pres, t, sub))
+            else:
+                clauses.append('((%s) && %s.%s.has && (unsigned long)%s.%s.val == %s.wi) ==> (%s.%s.val.type == %s.wv.type && %s.%s.val.class_ == %s.wv.class_)' %
+                               (cond, stored, name, stored, name, t, gen, pres, t, gen, pres, t))
+            clauses.append('!(%s) ==> !%s.%s.has' % (cond, gen, pres)) if cond != '1' else None
+        elif name == 'time_offset':
+            clauses.append('(%s) ==> %s' % (cond, opt_scalar_eq(L, gf['ts'], gen + '.ts', stored + '.time_offset')))
+        elif name in gf:
+            clauses.append('(%s) ==> %s' % (cond, opt_scalar_eq(L, gf[name], gen + '.' + name, stored + '.' + name)))
+            if cond != '1':
+                clauses.append('!(%s) ==> !%s.%s.has' % (cond, gen, name))
+        else:
+            raise LowerError('stored member %s.%s has no presented counterpart' % (srec, name))
+
+
+def present_contract(which):
+    def gen(ast, L, tf):
+        lst = TB + ('m_query_responses' if which == 'qr' else 'm_malformed_messages')
+        cnt = '$this->' + ('m_qr_read' if which == 'qr' else 'm_mm_read')
+        w = lst + '.wv'
+        live = '(g_exc == 0 && !*$1 && @R0 == %s.wi)' % lst
+        cl = []
+        if which == 'qr':
+            present_group(ast, L, '$ret', 'GenericQueryResponse', w, 'QueryResponse', '1', cl,
+                          skip=('qr_signature_index', 'response_processing_data', 'query_extended', 'response_extended'))
+            sig = '%s.qr_signature_index.has' % w
+            present_group(ast, L, '$ret', 'GenericQueryResponse', TB + 'm_qr_sig.wv', 'QueryResponseSignature',
+                          '%s && (unsigned long)%s.qr_signature_index.val == %sm_qr_sig.wi' % (sig, w, TB), [])   # (names checked below)
+            sub = []
+            present_group(ast, L, '$ret', 'GenericQueryResponse', TB + 'm_qr_sig.wv', 'QueryResponseSignature', 'SIGW', sub)
+            for c in sub:
+                if c.startswith('!(SIGW)'):
+                    cl.append(c.replace('!(SIGW)', '!(%s)' % sig))
+                else:
+                    cl.append(c.replace('SIGW', '%s && (unsigned long)%s.qr_signature_index.val == %sm_qr_sig.wi' % (sig, w, TB)))
+            rp = '%s.response_processing_data' % w
+            sub = []
+            present_group(ast, L, '$ret', 'GenericQueryResponse', rp + '.val', 'ResponseProcessingData', rp + '.has', sub)
+            cl += sub
+            for pre_, ext in (('query', 'query_extended'), ('response', 'response_extended')):
+                for idx, suffix in EXT_LISTS.items():
+                    cl.append('(($ret.%s_%s.has != 0) == (%s.%s.has && %s.%s.val.%s.has))' % (pre_, suffix, w, ext, w, ext, idx))
+        else:
+            present_group(ast, L, '$ret', 'GenericMalformedMessage', w, 'MalformedMessage', '1', cl, skip=('message_data_index',))
+            md = '%s.message_data_index.has' % w
+            sub = []
+            present_group(ast, L, '$ret', 'GenericMalformedMessage', TB + 'm_malformed_message_data.wv', 'MalformedMessageData', 'MDW', sub)
+            for c in sub:
+                if c.startswith('!(MDW)'):
+                    cl.append(c.replace('!(MDW)', '!(%s)' % md))
+                else:
+                    cl.append(c.replace('MDW', '%s && (unsigned long)%s.message_data_index.val == %sm_malformed_message_data.wi' % (md, w, TB)))
+        c = '''
+__CPROVER_requires(__CPROVER_w_ok($this, sizeof(*$this)) && __CPROVER_w_ok($1, 1) && g_exc == 0 && %(cnt)s < (1UL << 60))
+__CPROVER_assigns(*$1, %(cnt)s, %(curs)s, seq_u32__cur, %(cur)s, g_exc)
+__CPROVER_ensures(g_exc == 0 || g_exc == EXC_runtime_error)
+__CPROVER_ensures(g_exc == 0 ==> ((*$1 != 0) == (@R0 >= %(lst)s.n)))
+__CPROVER_ensures((g_exc == 0 && !*$1) ==> %(cnt)s == @R0 + 1)
+__CPROVER_ensures((g_exc != 0 || *$1) ==> %(cnt)s == @R0)
+''' % {'cnt': cnt, 'curs': BTCURS, 'lst': lst, 'cur': 'seq_QueryResponse__cur' if which == 'qr' else 'seq_MalformedMessage__cur'}
+        for x in cl:
+            if x:
+                c += '__CPROVER_ensures(%s ==> (%s))\n' % (live, x)
+        return c
+    return gen
+
+
+FILL_STUBS = [(r'^CdnsBlockRead__fill_generic_(q|rr)_list$', '''  static struct seq_GenericResourceRecord zero;
+  if (g_exc) return zero;
+  if (nondet_bool()) { g_exc = EXC_runtime_error; return zero; }     /* an index in the list is out of range (rdb.fill_generic_*_list) */
+  { struct seq_GenericResourceRecord r; r.n = $P1->n; return r; }''')]
+for which, fn, cntm in (('qr', 'read_generic_qr', 'm_qr_read'), ('mm', 'read_generic_mm', 'm_mm_read')):
+    UNITS.append(Unit('rdb.' + fn, ('CdnsBlockRead::' + fn, None), contract=present_contract(which), prelude=P, extern_records=R.EXT,
+                      stubs=RG_STUBS, gen_stubs=GETTER_STUBS + FILL_STUBS, arrays_uf=False, auto_inline=AUTO, ghost=[('unsigned long', 'R0', '$this->' + cntm)],
+                      extra_c='struct seq_u8 g_OpCodesDefault; struct seq_u16 g_RrTypesDefault;\n', split=False,
+                      setup='  static struct CdnsBlockRead obj; _Bool a_end;\n  __CPROVER_assume(obj.%s < (1UL << 60));\n' % cntm, args=['&obj', '&a_end'],
+                      props=['C01', 'C03', 'C17'], timeout=1800,
+                      post='  if (g_exc != 0) { CANARY("out-of-range index reachable"); }\n  if (g_exc == 0 && !a_end) { CANARY("record returned reachable"); }',
+                      note='records are handed out in stored order, end is reported exactly after the last; every member of the presented record equals the stored '
+                           'member (time = the resolved time), every index member is resolved through the bounds-checked accessor of its table, absent members stay absent'))
